@@ -1,7 +1,23 @@
 """Rule primitives K3..K11 as reusable helpers. Each helper registers obligations on the Report and
 returns the truth value; a missing anchor fails closed."""
+import json, os
 from core import *
 import sends as sendsmod
+
+
+ENTRY_TABLE = os.path.join(os.path.dirname(os.path.dirname(os.path.dirname(os.path.abspath(__file__)))), 'tables', 'entry_sets.json')
+_ENTRY_ROWS = None
+FREEZE = {}      # filled when BA_FREEZE_ENTRY_SETS=1 (tools/gen_entry_sets.py)
+
+
+def entry_rows():
+    global _ENTRY_ROWS
+    if _ENTRY_ROWS is None:
+        try:
+            _ENTRY_ROWS = json.load(open(ENTRY_TABLE))['rows']
+        except Exception:
+            _ENTRY_ROWS = {}
+    return _ENTRY_ROWS
 
 
 class Ctx:
@@ -10,6 +26,40 @@ class Ctx:
         self.rep = rep
         self.S = prog.slicer
         self.N = prog.narrow
+
+    # ------------------------------------------------------------------ exported entry points reaching a function
+    def entries_of(self, fid):
+        """the exported methods ('miner.WithdrawBalance', ...) whose handler reaches function fid in the call graph"""
+        E = getattr(self.prog, '_entry_sets', None)
+        if E is None:
+            import dispatch
+            E = {}
+            ents, _info = dispatch.extract(self.prog)
+            for e in ents:
+                if not e.handler:
+                    continue
+                k = e.key()
+                for x in self.prog.reachable_fns(e.handler):
+                    E.setdefault(x, set()).add(k)
+            self.prog._entry_sets = E
+        return E.get(fid, set())
+
+    def _moved_ok(self, table_key, bad_fids, now_fids, n_sites):
+        """refactor tolerance for writer / caller sets: an unexpected site is accepted when the frozen row shows it is a
+        *moved* site (helper inlined / extracted / renamed): it is reachable only from exported methods that already
+        reached such a site, and the number of sites did not grow.  Returns (tolerate_unexpected, tolerate_missing)."""
+        ents_now = set()
+        for fid in now_fids:
+            ents_now |= self.entries_of(fid)
+        if os.environ.get('BA_FREEZE_ENTRY_SETS') == '1':
+            FREEZE[table_key] = {'entries': sorted(ents_now), 'sites': n_sites}
+        row = entry_rows().get(table_key)
+        if not row:
+            return (False, False)
+        frozen = set(row['entries'])
+        tol_bad = bool(bad_fids) and n_sites <= row['sites'] and all(self.entries_of(fid) and self.entries_of(fid) <= frozen for fid in bad_fids)
+        tol_missing = frozen <= ents_now and n_sites >= row['sites']
+        return (tol_bad, tol_missing)
 
     # ------------------------------------------------------------------ lookup (fail closed)
     def fn(self, suffix, crate=None):
@@ -58,12 +108,20 @@ class Ctx:
             al = allowed if k == 'write' else constructors
             if not any(_match_fn(fid, a) for a in al):
                 bad.append((k, fid, locs[0]))
+        n_sites = sum(len(v) for (k, _), v in got.items() if k == 'write')
+        tol_bad, tol_missing = self._moved_ok('writers:%s:%s' % (crate or '*', key), [b[1] for b in bad if b[0] == 'write'], [fid for (k, fid) in got if k == 'write'], n_sites)
+        if bad and tol_bad and all(b[0] == 'write' for b in bad):
+            self.rep.note('writers:%s: write site(s) moved to %s (same exported methods, same number of sites): accepted as a refactoring' % (key, [b[1] for b in bad]))
+            bad = []
         self.rep.need(rule, 'writers:' + key, not bad,
                       'unexpected %s: %s (allowed: %s)' % ('writer(s)' if bad else '', [(b[1], b[2]) for b in bad], sorted(allowed)),
                       bad[0][2] if bad else None,
                       {'rule': rule, 'field': key, 'writers': sorted({fid for (k, fid) in got if k == 'write'})})
         req = required if required is not None else allowed
         missing = [a for a in req if not any(_match_fn(fid, a) for (k, fid) in got if k == 'write')]
+        if missing and tol_missing:
+            self.rep.note('writers-present:%s: %s no longer write(s) it, but every exported method that reached a write still does and no site was lost: accepted as a refactoring' % (key, missing))
+            missing = []
         self.rep.need(rule, 'writers-present:' + key, not missing,
                       'confirmed writer(s) no longer write %s: %s (fail closed)' % (key, missing))
         self.rep.count('writes:' + key, sum(len(v) for (k, _), v in got.items() if k == 'write'))
@@ -82,12 +140,19 @@ class Ctx:
                 if pred(c):
                     sites.append(c)
         bad = [c for c in sites if not any(_match_fn(c.fn.id, a) for a in allowed)]
+        tol_bad, tol_missing = self._moved_ok('callers:%s:%s' % (','.join(crates) if crates else '*', name), [c.fn.id for c in bad], [c.fn.id for c in sites], len(sites))
+        if bad and tol_bad:
+            self.rep.note('callers:%s: call site(s) moved to %s (same exported methods, same number of sites): accepted as a refactoring' % (name, sorted({c.fn.id for c in bad})))
+            bad = []
         self.rep.need(rule, 'callers:' + name, not bad,
                       'unexpected call site(s) of %s: %s (allowed: %s)' % (name, [(c.fn.id, c.where) for c in bad], sorted(allowed)),
                       bad[0].where if bad else None,
                       {'rule': rule, 'callee': name, 'call_sites': [(c.fn.id, c.where) for c in sites][:12]})
         req = required if required is not None else allowed
         missing = [a for a in req if not any(_match_fn(c.fn.id, a) for c in sites)]
+        if missing and tol_missing:
+            self.rep.note('callers-present:%s: %s no longer call(s) it, but every exported method that reached a call still does and no site was lost: accepted as a refactoring' % (name, missing))
+            missing = []
         self.rep.need(rule, 'callers-present:' + name, not missing, 'confirmed caller(s) of %s vanished: %s (fail closed)' % (name, missing))
         self.rep.count('calls:' + name, len(sites))
         return sites
@@ -106,6 +171,44 @@ class Ctx:
 
     def write_blocks(self, f, adt, field, kinds=('assign', 'mutref', 'calldst')):
         return sorted({bb for (g, bb, line, kind) in self.prog.field_writes(adt, field, fns=[f]) if kind in kinds})
+
+    def effect_blocks(self, f, adt, field, kinds=('assign', 'mutref', 'calldst')):
+        """blocks of f that write (adt, field) directly or call a function that (transitively) does - the same set whether a
+        one-line mutator helper exists or was inlined into f"""
+        out = set(self.write_blocks(f, adt, field, kinds))
+        wfns = {g.id for (g, bb, line, kind) in self.prog.field_writes(adt, field) if kind in kinds and not NEUTRAL.search(g.id)}
+        for c in f.calls:
+            tg = set([c.callee] if c.callee else []) | set(c.cl)
+            for t in tg:
+                if t in self.prog.fns and t != f.id and (t in wfns or (self.prog.reachable_fns(t) & wfns)):
+                    out.add(c.bb)
+        return sorted(out)
+
+    def expand_params(self, f, atoms, depth=2):
+        """atoms with every parameter atom ('P', n) of f replaced by the (wide) atoms of the n-th argument at each call site of
+        f in the workspace - what a helper's parameter stands for in its callers"""
+        out = set(a for a in atoms if a[0] != 'P')
+        ps = [a for a in atoms if a[0] == 'P']
+        if not ps or depth == 0:
+            return out | set(ps)
+        sites = [c for g in self.prog.fns.values() if g.kind not in ('promoted', 'const') for c in g.calls if c.callee == f.id]
+        if not sites:
+            return out | set(ps)
+        for a in ps:
+            for c in sites:
+                if a[1] - 1 < len(c.args):
+                    out |= self.expand_params(c.fn, self.S.operand(c.fn, c.args[a[1] - 1]), depth - 1)
+        return out
+
+    def ledger_updates(self, adt, field, crate):
+        """[(Fn, dir, bb, line, atoms)] every update of (adt, field) in the crate outside constructors / derives; atoms are the wide
+        slice of the value with helper parameters expanded through the helper's call sites"""
+        out = []
+        fns = {g.id: g for (g, bb, line, kind) in self.prog.field_writes(adt, field) if g.crate == crate and not NEUTRAL.search(g.id) and kind != 'construct'}
+        for g in fns.values():
+            for (fld, dirn, bb, line, atoms) in field_ops(self, g, adt, [field], slicer=self.S):
+                out.append((g, dirn, bb, line, self.expand_params(g, atoms)))
+        return out
 
     # ------------------------------------------------------------------ K6 guards
     @staticmethod
